@@ -20,7 +20,9 @@ import (
 	pb "github.com/imoore76/ldlm/protos"
 	"github.com/imoore76/ldlm/server"
 	"google.golang.org/grpc"
+	"google.golang.org/grpc/codes"
 	"google.golang.org/grpc/stats"
+	"google.golang.org/grpc/status"
 
 	_ "verif/harness/impl" // silences the repo logger
 )
@@ -43,8 +45,26 @@ type transport struct {
 	svc   *ldlmgrpc.Service
 	conn  context.Context // what TagConn returned for this client's "connection"
 	start time.Time
-	mu    sync.Mutex
-	log   []rpcRec
+	mu     sync.Mutex
+	log    []rpcRec
+	closed bool // Close was called on the "connection": every later RPC fails as grpc-go's does
+}
+
+// Close is what closing the gRPC connection is to the client: RPCs on it fail with Canceled.
+func (t *transport) Close() error {
+	t.mu.Lock()
+	t.closed = true
+	t.mu.Unlock()
+	return nil
+}
+
+func (t *transport) down() error {
+	t.mu.Lock()
+	defer t.mu.Unlock()
+	if t.closed {
+		return status.Error(codes.Canceled, "grpc: the client connection is closing")
+	}
+	return nil
 }
 
 func (t *transport) rec(r rpcRec) int {
@@ -74,6 +94,10 @@ func errCode(e *pb.Error) string {
 }
 
 func (t *transport) Lock(ctx context.Context, in *pb.LockRequest, _ ...grpc.CallOption) (*pb.LockResponse, error) {
+	if err := t.down(); err != nil {
+		t.rec(rpcRec{Method: "Lock", Name: in.Name, AtNs: int64(time.Since(t.start)), Err: "(connection closed)"})
+		return nil, err
+	}
 	at := int64(time.Since(t.start))
 	m, err := t.svc.Lock(t.conn, in)
 	if err == nil {
@@ -83,6 +107,10 @@ func (t *transport) Lock(ctx context.Context, in *pb.LockRequest, _ ...grpc.Call
 }
 
 func (t *transport) TryLock(ctx context.Context, in *pb.TryLockRequest, _ ...grpc.CallOption) (*pb.LockResponse, error) {
+	if err := t.down(); err != nil {
+		t.rec(rpcRec{Method: "TryLock", Name: in.Name, AtNs: int64(time.Since(t.start)), Err: "(connection closed)"})
+		return nil, err
+	}
 	at := int64(time.Since(t.start))
 	m, err := t.svc.TryLock(t.conn, in)
 	if err == nil {
@@ -92,6 +120,10 @@ func (t *transport) TryLock(ctx context.Context, in *pb.TryLockRequest, _ ...grp
 }
 
 func (t *transport) Unlock(ctx context.Context, in *pb.UnlockRequest, _ ...grpc.CallOption) (*pb.UnlockResponse, error) {
+	if err := t.down(); err != nil {
+		t.rec(rpcRec{Method: "Unlock", Name: in.Name, AtNs: int64(time.Since(t.start)), Err: "(connection closed)"})
+		return nil, err
+	}
 	at := int64(time.Since(t.start))
 	m, err := t.svc.Unlock(t.conn, in)
 	if err == nil {
@@ -101,6 +133,10 @@ func (t *transport) Unlock(ctx context.Context, in *pb.UnlockRequest, _ ...grpc.
 }
 
 func (t *transport) Renew(ctx context.Context, in *pb.RenewRequest, _ ...grpc.CallOption) (*pb.LockResponse, error) {
+	if err := t.down(); err != nil {
+		t.rec(rpcRec{Method: "Renew", Name: in.Name, AtNs: int64(time.Since(t.start)), Err: "(connection closed)"})
+		return nil, err
+	}
 	at := int64(time.Since(t.start))
 	// recorded BEFORE the call: a renew that is in flight when Unlock returns was sent before it
 	i := t.rec(rpcRec{Method: "Renew", Name: in.Name, Key: in.Key, AtNs: at, Err: "(in flight)", RenewT: in.LockTimeoutSeconds})
